@@ -41,7 +41,11 @@ def run(ck, prog, ctx):
         fam = prog.family(b)
         reds = [(fb, bi, t) for fb, bi, t in reductions(prog, fam) if fb is b]
         if not reds:
-            ck.ob("SHORTCUT", name + "/reduction", False, "%s has no min reduction over the common ancestors" % name, where=b.where())
+            from engines import for_loops as _fl
+            if _fl(b):
+                ck.undecided("SHORTCUT", name + "/reduction", "%s minimises with an explicit loop, not an Iterator reduction: its results are not classified by this rule" % name, where=b.where())
+            else:
+                ck.ob("SHORTCUT", name + "/reduction", False, "%s has no min reduction over the common ancestors" % name, where=b.where())
             continue
         # candidate set
         cands = set()
